@@ -53,11 +53,11 @@ def ekw (t : TagKind) (kw : CtorKw) : CtorKw :=
   | _ => kw
 
 /-- effective keywords of a scalar: a tagged explicit null is an existing node that only receives the
-    priority -/
+    priority and (since the repair of the dropped `!unsafe` mark) an explicit `safe=False` -/
 def skw (t : TagKind) (kw : CtorKw) (v : RVal) : CtorKw :=
   match t, v with
   | .none, _ => {}
-  | .plain, .lit .null => { prio := kw.prio }
+  | .plain, .lit .null => { prio := kw.prio, safe := if kw.safe = some false then some false else none }
   | _, _ => kw
 
 mutual
